@@ -111,9 +111,12 @@ def _mk_walk(key, wi, two, start='root'):
             pc.reset_globals()
             n0 = len(list(ast.walk(root.a)))
             wroot = STARTS[start](root)
+            allf = [n_.f for n_ in ast.walk(root.a)]               # kept alive for the whole run
+            orig = {id(f_): type(f_.a).__name__ for f_ in allf}     # which AST class every FST object stood for before the walk
         sig = f'walk.{key}.{wkw}' + ('' if start == 'root' else f'.from_{start}')
         seen = set()       # ids of nodes yielded on entry (on leave for on='leave') and not since released by a send(True) re-walk
         keep = []          # keep every yielded object alive: otherwise a freed node's id() can be reused by a new node
+        first = {}
         n = 0
         expect_children_of = None
         expect_again = []
@@ -128,8 +131,14 @@ def _mk_walk(key, wi, two, start='root'):
                 check(any(m_ is ga for m_ in ast.walk(root.a)), 'walk.yielded_node_not_reachable_from_root', (key, wkw, act1, act2, type(ga).__name__))
             expect_again = [e for e in expect_again if e is not g]
             if leaving == leave:          # the "first" kind of yield of this walk mode: entry, or leave for on='leave'
-                check(id(g) not in seen, 'walk.yielded_node_twice_on_leave' if leave else 'walk.yielded_node_twice_on_entry', (key, wkw, act1, act2, type(g.a).__name__, n))
+                if id(g) in seen:
+                    t0_ = orig.get(id(g), first[id(g)][0])
+                    how = 'walk.yielded_node_twice_on_leave' if leave else 'walk.yielded_node_twice_on_entry'
+                    if first[id(g)][1] is not g.a or t0_ != type(g.a).__name__:      # the same FST object now stands for ANOTHER AST node (a parent collapsed into its remaining child): identify the finding by what collapsed
+                        how += f':fst_object_reused:{key}:{t0_}->{type(g.a).__name__}'
+                    fail(how, (key, wkw, act1, act2, type(g.a).__name__, n))
                 seen.add(id(g))
+                first[id(g)] = (type(g.a).__name__, g.a)
                 keep.append(g)
             if expect_children_of is not None:
                 par, = expect_children_of
